@@ -2,49 +2,80 @@
    Statements only; every proof is [exact <lemma of C16/Proofs.v>]. *)
 From Kit Require Import C16.Model C16.Spec C16.Check C16.Proofs.
 
-(* LimitReadCloser on the current tree: for EVERY limit, script (chunking, zero-length reads at
+(* Sources are the scripts of C16/ReaderX.v: chunks, zero-length reads, data with EOF, failures of
+   every identity (plain, wrapping io.EOF or io.ErrUnexpectedEOF, bare io.ErrUnexpectedEOF) alone
+   or together with data.  [stop = None]: the consumer reads until it is given an error;
+   [Some fuel]: it stops after at most [fuel] Read calls.
+
+   LimitReadCloser on the current tree: for EVERY limit, script (chunking, zero-length reads at
    any offset, data-with-EOF, mid-stream failure), EVERY sequence of positive consumer buffer
    sizes (the type has only Read and Close, so every consumption path of the io package - Read
    loops, io.ReadAll, io.Copy, io.CopyBuffer, io.CopyN, a destination's ReadFrom - is such a
    sequence) and ANY number k >= 1 of Close calls afterwards, the read loop ends with an error
    value and (bytes, error, closes before Close, closes after the last Close) meet the spec:
-   source unchanged + EOF when it has at most n bytes; exactly the first n bytes +
+   source unchanged + its own end (io.EOF or ITS failure) when it has at most n bytes; exactly the first n bytes +
    ErrStreamTooLarge, the source already closed by the limiter, when it is longer; source closed
    exactly once in the end. *)
 Theorem C16_limit_spec : forall n s c k, consumer_pos c -> 1 <= k ->
-  exists out e cb ca, limit_run Fixed n s c k = (out, Some e, cb, ca) /\
+  exists out e cb ca, limit_run Fixed n s c None k = (out, Some e, cb, ca) /\
                       limit_spec n s out e cb ca.
 Proof. exact limit_run_spec. Qed.
 Print Assumptions C16_limit_spec.
+
+(* ... and when the consumer stops after ANY number of Read calls and then calls Close: either an
+   error had come (then as above) or it holds a prefix of the source of at most n bytes, and
+   the source is closed exactly once. *)
+Theorem C16_limit_stop_spec : forall n s c fuel k, consumer_pos c -> 1 <= k ->
+  exists out eo cb ca, limit_run Fixed n s c (Some fuel) k = (out, eo, cb, ca) /\
+    match eo with
+    | Some e => limit_spec n s out e cb ca
+    | None => limit_stop_spec n s out ca
+    end.
+Proof. exact limit_run_stop_spec. Qed.
+Print Assumptions C16_limit_stop_spec.
 
 (* The code before the fix: an over-long source whose (n+1)-th byte arrives together with EOF
    ends in a clean EOF. *)
 Theorem C16_limit_over_refuted : exists n s c, consumer_pos c /\
   (Z.of_nat (length (data_of s)) > n)%Z /\
-  exists out cb ca, limit_run Original n s c 1 = (out, Some EEOF, cb, ca).
+  exists out cb ca, limit_run Original n s c None 1 = (out, Some EEOF, cb, ca).
 Proof. exact limit_over_refuted. Qed.
 Print Assumptions C16_limit_over_refuted.
 
-(* MultiReaderCloser through Read (both variants): concatenation, EOF only after the last
-   source, every closable source closed exactly once after any number k >= 1 of Close calls. *)
+(* MultiReaderCloser through Read (both variants): concatenation up to the first source that
+   does not end with io.EOF and then THAT source's error (a failure that merely wraps io.EOF is
+   not the end of a source), EOF only after the last source, every closable source closed exactly
+   once after any number k >= 1 of Close calls. *)
 Theorem C16_multi_read_spec : forall v srcs c k, consumer_pos c -> 1 <= k ->
-  exists out e cb ca, multi_run v srcs (ViaRead c) k = (out, Some e, cb, ca) /\
+  exists out e cb ca, multi_run v srcs (ViaRead c) None k = (out, Some e, cb, ca) /\
                       multi_spec srcs out e ca.
 Proof. exact multi_read_spec. Qed.
 Print Assumptions C16_multi_read_spec.
+
+(* ... and when the consumer stops after ANY number of Read calls, with any number of sources
+   unfinished, and then calls Close: a prefix of the stream, and every closable source -
+   finished or not - closed exactly once. *)
+Theorem C16_multi_read_stop_spec : forall v srcs c fuel k, consumer_pos c -> 1 <= k ->
+  exists out eo cb ca, multi_run v srcs (ViaRead c) (Some fuel) k = (out, eo, cb, ca) /\
+    match eo with
+    | Some e => multi_spec srcs out e ca
+    | None => multi_stop_spec srcs out ca
+    end.
+Proof. exact multi_read_stop_spec. Qed.
+Print Assumptions C16_multi_read_stop_spec.
 
 (* ... and through WriteTo (io.Copy, io.CopyBuffer) on the current tree, whatever buffer sizes
    the per-source copies read with (WriteTo's own 32 KiB buffer, or the choices of a
    destination that is an io.ReaderFrom). *)
 Theorem C16_multi_writeto_spec : forall srcs c k, consumer_pos c -> 1 <= k ->
-  exists out e cb ca, multi_run Fixed srcs (ViaWriteTo c) k = (out, Some e, cb, ca) /\
+  exists out e cb ca, multi_run Fixed srcs (ViaWriteTo c) None k = (out, Some e, cb, ca) /\
                       multi_spec srcs out e ca.
 Proof. exact multi_writeto_spec. Qed.
 Print Assumptions C16_multi_writeto_spec.
 
 (* The code before the fix never closed a source on the WriteTo path. *)
 Theorem C16_multi_writeto_refuted : exists srcs out e cb ca,
-  multi_run Original srcs (ViaWriteTo copy_consumer) 1 = (out, Some e, cb, ca) /\
+  multi_run Original srcs (ViaWriteTo copy_consumer) None 1 = (out, Some e, cb, ca) /\
   ca <> expected_closes srcs.
 Proof. exact multi_writeto_refuted. Qed.
 Print Assumptions C16_multi_writeto_refuted.
@@ -52,10 +83,20 @@ Print Assumptions C16_multi_writeto_refuted.
 (* TeeReadCloser: delivered = written = a prefix of the source data, all of it unless the
    writer failed; source and writer closed once by any number k >= 1 of Close calls. *)
 Theorem C16_tee_spec : forall s b c k, consumer_pos c -> 1 <= k ->
-  exists out e w sc wc, tee_run s b c k = (out, Some e, w, sc, wc) /\
+  exists out e w sc wc, tee_run s b c None k = (out, Some e, w, sc, wc) /\
                         tee_spec s b out e w sc wc.
 Proof. exact tee_run_spec. Qed.
 Print Assumptions C16_tee_spec.
+
+(* ... and when the consumer stops after ANY number of Read calls and then calls Close. *)
+Theorem C16_tee_stop_spec : forall s b c fuel k, consumer_pos c -> 1 <= k ->
+  exists out eo w sc wc, tee_run s b c (Some fuel) k = (out, eo, w, sc, wc) /\
+    match eo with
+    | Some e => tee_spec s b out e w sc wc
+    | None => tee_stop_spec s out w sc wc
+    end.
+Proof. exact tee_run_stop_spec. Qed.
+Print Assumptions C16_tee_stop_spec.
 
 (* The boolean oracles evaluated on the implementation's observations decide the specs. *)
 Theorem C16_limit_oracle_sound : forall n s out e cb ca,
@@ -72,3 +113,18 @@ Theorem C16_tee_oracle_sound : forall s b out e w sc wc,
   tee_oracle s b out e w sc wc = true <-> tee_spec s b out e w sc wc.
 Proof. exact tee_oracle_sound. Qed.
 Print Assumptions C16_tee_oracle_sound.
+
+Theorem C16_limit_stop_oracle_sound : forall n s out ca,
+  limit_stop_oracle n s out ca = true <-> limit_stop_spec n s out ca.
+Proof. exact limit_stop_oracle_sound. Qed.
+Print Assumptions C16_limit_stop_oracle_sound.
+
+Theorem C16_multi_stop_oracle_sound : forall srcs out ca,
+  multi_stop_oracle srcs out ca = true <-> multi_stop_spec srcs out ca.
+Proof. exact multi_stop_oracle_sound. Qed.
+Print Assumptions C16_multi_stop_oracle_sound.
+
+Theorem C16_tee_stop_oracle_sound : forall s out w sc wc,
+  tee_stop_oracle s out w sc wc = true <-> tee_stop_spec s out w sc wc.
+Proof. exact tee_stop_oracle_sound. Qed.
+Print Assumptions C16_tee_stop_oracle_sound.
